@@ -79,6 +79,9 @@ struct Case {
     body: BodySpec,
     #[serde(default)]
     cuts: Vec<usize>,
+    /// structural segmentation: cut every k bytes (used instead of `cuts` when present)
+    #[serde(default)]
+    every: Option<usize>,
     /// bytes | stream | sized | none
     #[serde(default)]
     body_type: String,
@@ -113,6 +116,33 @@ fn runs(len: usize, seed: u64) -> Vec<u8> {
         i += 1 + r.below(3);
     }
     out
+}
+/// the segments of `data` a case asks for
+fn segments(c: &Case, data: &[u8]) -> Vec<Vec<u8>> {
+    match c.every {
+        Some(k) if k > 0 => cut(data, &(k..data.len()).step_by(k).collect::<Vec<_>>()),
+        _ => cut(data, &c.cuts),
+    }
+}
+/// segmentation for a body / wire of `len` bytes: byte-wise and other fine segmentations only for
+/// small inputs (<= 4 KiB); larger inputs get at most ~256 segments, described structurally
+fn gen_segmentation(rng: &mut Rng, len: usize) -> (Vec<usize>, Option<usize>) {
+    if len <= 4096 {
+        if len > 300 && rng.chance(1, 2) {
+            (vec![], Some(rng.range(1, 1200) as usize))
+        } else {
+            (random_cuts(rng, len), None)
+        }
+    } else {
+        match rng.below(3) {
+            0 => (vec![], None),
+            1 => {
+                let lo = (len / 256).max(64) as u64;
+                (vec![], Some(rng.range(lo, (len as u64 / 3).max(lo)) as usize))
+            }
+            _ => ((0..rng.range(1, 10)).map(|_| rng.range(1, len as u64 - 1) as usize).collect::<std::collections::BTreeSet<_>>().into_iter().collect(), None),
+        }
+    }
 }
 fn gen_body(b: &BodySpec) -> Vec<u8> {
     match b.kind.as_str() {
@@ -457,10 +487,10 @@ fn body_chunks(c: &Case) -> (Vec<u8>, Vec<Vec<u8>>) {
         "none" => vec![],
         "bytes" => vec![body.clone()],
         _ => {
-            if body.is_empty() && c.cuts.is_empty() {
+            if body.is_empty() && c.cuts.is_empty() && c.every.is_none() {
                 vec![]
             } else {
-                cut(&body, &c.cuts)
+                segments(c, &body)
             }
         }
     };
@@ -532,7 +562,9 @@ async fn run_resp(c: &Case) -> CaseOut {
             }
             None => break,
         }
-        if guard > 100_000 {
+        // Encoder emits at most one chunk per body chunk plus the finish chunk: more polls than
+        // that without reaching the end is the implementation not terminating, not a harness limit
+        if guard > chunks.len() + 8 {
             err = true;
             break;
         }
@@ -911,11 +943,12 @@ async fn run_dec(c: &Case) -> CaseOut {
         }
     }
     let damaged = c.truncate.is_some() || c.corrupt.is_some();
-    let chunks = if wire.is_empty() && c.cuts.is_empty() { vec![] } else { cut(&wire, &c.cuts) };
+    let chunks = if wire.is_empty() && c.cuts.is_empty() && c.every.is_none() { vec![] } else { segments(c, &wire) };
     let s = WireStream { items: chunks.iter().map(|x| Bytes::from(x.clone())).collect(), pend: c.pend, parked: false };
     let mut d = Decoder::new(s, content_encoding(&c.enc));
     let mut got: Vec<Option<Vec<u8>>> = vec![];
     let mut errored = false;
+    let mut runaway = false;
     loop {
         match d.next().await {
             Some(Ok(b)) => got.push(Some(b.to_vec())),
@@ -926,7 +959,10 @@ async fn run_dec(c: &Case) -> CaseOut {
             }
             None => break,
         }
-        if got.len() > 100_000 {
+        // Decoder emits at most one item per wire chunk plus the feed_eof output
+        if got.len() > chunks.len() + 8 {
+            runaway = true;
+            errored = true;
             break;
         }
     }
@@ -942,7 +978,9 @@ async fn run_dec(c: &Case) -> CaseOut {
     }
     let delivered: Vec<u8> = got.iter().flatten().flatten().copied().collect();
     let mut why = String::new();
-    if !damaged {
+    if runaway {
+        why = "the decoder emitted more items than its wire chunks and feed_eof allow: the stream does not end".into();
+    } else if !damaged {
         if errored {
             why = "valid encoded body produced an error".into();
         } else if delivered != body {
@@ -1119,7 +1157,8 @@ fn run_law(c: &Case) -> CaseOut {
     }
     // decoder_law: streaming decode of any segmentation = whole decode
     let wire = whole_encode(&c.enc, &body);
-    let segs = cut(&wire, &random_cuts(&mut rng, wire.len()));
+    let (lc, le) = gen_segmentation(&mut rng, wire.len());
+    let segs = segments(&Case { cuts: lc, every: le, ..Default::default() }, &wire);
     let mut d = TwinDec::new(&c.enc).unwrap();
     let mut plain = vec![];
     let mut bad = false;
@@ -1186,17 +1225,7 @@ fn gen_case(rng: &mut Rng, thorough: bool) -> Case {
             let len = if rng.chance(1, if thorough { 15 } else { 60 }) { 1 << 20 } else if rng.chance(1, 3) { rng.range(0, 6000) as usize } else { *rng.pick(&lens) };
             let kind = if len <= 6000 && rng.chance(1, 3) { "rand" } else { "runs" };
             c.body = BodySpec { kind: kind.into(), len, seed: rng.next() % 1000 };
-            c.cuts = if len > 6000 {
-                match rng.below(3) {
-                    0 => vec![],
-                    1 => (1..len).step_by(rng.range(500, 70000) as usize).collect(),
-                    _ => (0..rng.range(1, 10)).map(|_| rng.range(1, len as u64 - 1) as usize).collect::<std::collections::BTreeSet<_>>().into_iter().collect(),
-                }
-            } else if len > 300 && rng.chance(1, 2) {
-                (1..len).step_by(rng.range(1, 1200) as usize).collect()
-            } else {
-                random_cuts(rng, len)
-            };
+            (c.cuts, c.every) = gen_segmentation(rng, len);
             c.pend = rng.chance(1, 3);
             c.no_chunking = rng.chance(1, 4);
             // a single large incompressible chunk (the compressor's output buffer fills inside one write)
@@ -1207,6 +1236,7 @@ fn gen_case(rng: &mut Rng, thorough: bool) -> Case {
                 c.ctype = "application/octet-stream".into();
                 c.body = BodySpec { kind: "rand".into(), len: *rng.pick(&[65536usize, 262144]), seed: rng.next() % 1000 };
                 c.cuts = vec![];
+                c.every = None;
                 c.body_type = rng.pick(&["bytes", "stream"]).to_string();
             }
             // the same response also over a real connection
@@ -1222,7 +1252,7 @@ fn gen_case(rng: &mut Rng, thorough: bool) -> Case {
             let kind = if len <= 9000 && rng.chance(1, 2) { "rand" } else { "runs" };
             c.body = BodySpec { kind: kind.into(), len, seed: rng.next() % 1000 };
             let wire_len = whole_encode(&c.enc, &gen_body(&c.body)).len();
-            c.cuts = if wire_len > 300 && rng.chance(1, 2) { (1..wire_len).step_by(rng.range(1, 3000) as usize).collect() } else { random_cuts(rng, wire_len) };
+            (c.cuts, c.every) = gen_segmentation(rng, wire_len);
             c.pend = rng.chance(1, 3);
             if rng.chance(1, 5) && c.enc != "identity" && c.enc != "unknown" && wire_len > 2 {
                 if rng.chance(1, 2) {
